@@ -140,38 +140,38 @@ func identify(it item) (src, seq int, ok bool) {
 }
 
 type source struct {
-	id       int
-	isArray  bool
-	cap      int
-	w        *schema.StreamWriter[int]
-	mu       sync.Mutex
-	issued   []item // raw items handed to the writer goroutine (arrays: all)
-	closeIss bool   // closeSend issued (arrays: true)
-	cmds     chan func()
-	done     chan struct{}
-	sawClosed bool
+	id          int
+	isArray     bool
+	cap         int
+	w           *schema.StreamWriter[int]
+	mu          sync.Mutex
+	issued      []item // raw items handed to the writer goroutine (arrays: all)
+	closeIss    bool   // closeSend issued (arrays: true)
+	cmds        chan func()
+	done        chan struct{}
+	sawClosed   bool
 	sendResults []bool
 }
 
 type reader struct {
-	sr      *schema.StreamReader[int]
-	srcs    map[int][]conv // source id -> converts on the path (inner to outer)
-	last    map[int]int    // source id -> last sequence number seen
-	closed  bool
-	gotEOF  bool
-	family  int    // copy family id (children of one Copy call), 0 = none
-	copySeq []item // what this reader received since it was created by Copy (family members must agree)
+	sr       *schema.StreamReader[int]
+	srcs     map[int][]conv // source id -> converts on the path (inner to outer)
+	last     map[int]int    // source id -> last sequence number seen
+	closed   bool
+	gotEOF   bool
+	family   int    // copy family id (children of one Copy call), 0 = none
+	copySeq  []item // what this reader received since it was created by Copy (family members must agree)
 	viaMerge bool
 }
 
 type world struct {
-	c       CaseC08
-	sources []*source
-	live    []*reader
-	nextFn  int
-	nextFam int
-	fams    map[int][]*reader
-	labels  map[string]bool
+	c                    CaseC08
+	sources              []*source
+	live                 []*reader
+	nextFn               int
+	nextFam              int
+	fams                 map[int][]*reader
+	labels               map[string]bool
 	recvCnt, skippedRecv int
 }
 
